@@ -61,6 +61,7 @@ def _check_pair(toks: Sequence[Tuple], name: str) -> List[Tuple[str, str]]:
 
 # ---------------------------------------------------------------- rules on a small system
 
+_SHAPES = [''.join(p_) for k_ in range(1, 6) for p_ in itertools.product('_a', repeat=k_)]
 SYSTEM_SRC = {
     # (modname, parent, is_package): source
     ('a', None, True): "class K:\n    def m(self): pass\n",
@@ -69,6 +70,9 @@ SYSTEM_SRC = {
                         "def f(): pass\ndef _g(): pass\nv = 1\n"),
     ('_b', 'a', False): "def g(): pass\nclass _H:\n    def a(self): pass\n",
     ('__main__', 'a', False): "def run(): pass\n",
+    # every identifier made of underscores and one letter, up to five characters: as functions and as class attributes (the
+    # default rule is about the shape of the name: leading underscore, dunder or not)
+    ('shapes', 'a', False): (''.join('def %s(): pass\n' % n for n in _SHAPES) + 'class Z:\n' + ''.join('    %s = 1\n' % n for n in _SHAPES)),
 }
 
 RULE_POOL = ['a', 'a.b', 'a._b', 'a.b.C', 'a.b.C.m', 'a.b.C._p', 'a.b._g', 'a.b.C.N.x',
